@@ -102,15 +102,15 @@ P == PlanRec
 NSig == IF Plan = "seq" THEN MaxLen ELSE Len(P.sig)
 ASSUME P.strict => NSig = 2
 \* the conservative relation contains the strict one
-ASSUME \A a \in SigAtoms, b \in Atoms : b.h # <<>> /\ MergesStrict(a, b) => NeedsSep(a, b)
+ASSUME Plan = "pairs" => \A a \in SigAtoms, b \in Atoms : b.h # <<>> /\ MergesStrict(a, b) => NeedsSep(a, b)
 
 \* ---- adjacency
-\* the two relations tabulated once over atom names (b must be able to start a unit)
+\* for the simulation the relation is tabulated once over atom names (b must be able to start a unit); the
+\* enumerations evaluate it directly (tabulating costs more than they need)
 Starts == {n \in AtomNames : A[n].h # <<>>}
-NSepT == [a \in AtomNames, b \in Starts |-> NeedsSep(A[a], A[b])]
-MStrT == [a \in AtomNames, b \in Starts |-> MergesStrict(A[a], A[b])]
+NSepT == IF Plan = "seq" THEN TLCEval([a \in AtomNames |-> TLCEval([b \in Starts |-> NeedsSep(A[a], A[b])])]) ELSE <<>>
 Flat(us) == IF us = <<>> THEN <<>> ELSE <<Last(us[Len(us)]).n>>   \* name of the last atom of a sequence of units, as a 0/1 sequence
-Sep(a, b, direct) == IF direct /\ P.strict THEN MStrT[a, b] ELSE NSepT[a, b]
+Sep(a, b, direct) == IF Plan = "seq" THEN NSepT[a][b] ELSE IF direct /\ P.strict THEN MergesStrict(A[a], A[b]) ELSE NeedsSep(A[a], A[b])
 \* prev (0/1 sequence of atom names), then the trivia units s, then b (0/1 sequence): no neighbours that need a separator
 ChainOK(prev, s, b) ==
     LET seq == prev \o [i \in 1..Len(s) |-> s[i][1]] \o b
